@@ -95,6 +95,12 @@ theorem c14_decoder_sound (mode : Bool) (p : Option Bytes) (v : Parsed) (h : dec
       ((∀ hh d f r, v.pkt ≠ .ap hh d f r) → t = []) :=
   decode_sound mode p v h
 
+/-- IsPartitionHead is consistent with the parser on every payload it accepts (not only on the
+    well-formed ones of c14_decoder): true unless the payload decodes to a non-first FU -/
+theorem c14_head_consistent (mode : Bool) (p : Bytes) (k : Pkt) (h : unmarshal mode (some p) = .ok k) :
+    isPartitionHead p = C14.headSpec k.view.pkt :=
+  head_consistent mode p k h
+
 example : decode false (some [0x26, 1, 7, 8]) = .ok { pkt := .single ⟨false, 19, 0, 1⟩ none [7, 8], tsci := none, sizesOk := true } := by
   decide
 
